@@ -17,9 +17,9 @@ const modPath = "github.com/awalterschulze/goderive"
 
 // Repo is the type-checked generator source (main, derive, plugin/*), never vendor/test/example.
 type Repo struct {
-	Dir  string
-	Fset *token.FileSet
-	Pkgs []*packages.Package
+	Dir        string
+	Fset       *token.FileSet
+	Pkgs       []*packages.Package
 	visitorLit *FuncInfo
 	// Normalised: this is the helper-inlined view (normalise.go); positions refer to the inlined text
 	Normalised bool
